@@ -17,7 +17,7 @@ import plans
 HERE = os.path.dirname(os.path.dirname(os.path.abspath(__file__)))
 REPO = os.environ.get("REPO", "/repo")
 GOENV = dict(os.environ, GOFLAGS="-mod=mod", GOPROXY="off", GOSUMDB="off", GOTOOLCHAIN="local")
-ALL_CMDS = ["inorun", "opsrun"]
+ALL_CMDS = ["inorun", "opsrun", "diffrun"]
 JOBS = int(os.environ.get("VERIF_JOBS", "12"))
 
 
